@@ -532,4 +532,65 @@ theorem defineRemaining_rel {opts : Opts} {d : Decls} {on off : Defs} (m : MRel 
         congr 1
         exact Prod.ext rfl a1
 
+theorem matchStaticSize_congr (a b : Defs) (hr : b.ruledefs = a.ruledefs) :
+    ∀ fuel, matchStaticSize b fuel = matchStaticSize a fuel ∧ matchSizeArgs b fuel = matchSizeArgs a fuel := by
+  intro fuel
+  induction fuel with
+  | zero =>
+    refine ⟨?_, ?_⟩
+    · funext m; simp only [matchStaticSize]
+    · funext rule args i p; simp only [matchSizeArgs]
+  | succ f ih =>
+    refine ⟨?_, ?_⟩
+    · funext m; simp only [matchStaticSize, hr, ih.2]
+    · funext rule args i p
+      cases args with
+      | nil => simp only [matchSizeArgs]
+      | cons x rest => simp only [matchSizeArgs, ih.1, ih.2]
+
+theorem staticOff_optMatcher (opts : Opts) : opts.staticOff.optMatcher = opts.optMatcher := rfl
+
+theorem matchStep_rel {opts : Opts} {d : Decls} (n : AstNode) (aon aoff : Defs × List String × List String)
+    (h2 : aoff.2 = aon.2) (m : MRel opts d aon.1 aoff.1) :
+    (matchStep opts.staticOff d aoff n).2 = (matchStep opts d aon n).2 ∧
+      MRel opts d (matchStep opts d aon n).1 (matchStep opts.staticOff d aoff n).1 := by
+  obtain ⟨x, sc, rp⟩ := aon
+  obtain ⟨y, sc', rp'⟩ := aoff
+  simp only at h2 m
+  injection h2 with h3 h4
+  subst h3; subst h4
+  unfold matchStep
+  simp only [staticOff_optMatcher, m.ruledefs, (matchKnown_congr d x y m.ruledefs m.kn sc' 64).1,
+    (matchStaticSize_congr x y m.ruledefs 64).1]
+  split
+  · split
+    · exact ⟨rfl, m⟩
+    · refine ⟨rfl, ?_⟩
+      refine m.symbols_of rfl rfl ?_ ?_ ?_ ?_ ?_ ?_ ?_ ?_ <;>
+        first | rfl | exact m.banks | exact m.fns | exact m.datas | exact m.res | exact m.aligns | exact m.addrs | (simp only [m.instrs])
+  · exact ⟨rfl, m⟩
+  · exact ⟨rfl, m⟩
+
+theorem matchFold_rel {opts : Opts} {d : Decls} : ∀ (l : List AstNode) (aon aoff : Defs × List String × List String),
+    aoff.2 = aon.2 → MRel opts d aon.1 aoff.1 →
+    (l.foldl (matchStep opts.staticOff d) aoff).2 = (l.foldl (matchStep opts d) aon).2 ∧
+      MRel opts d (l.foldl (matchStep opts d) aon).1 (l.foldl (matchStep opts.staticOff d) aoff).1 := by
+  intro l
+  induction l with
+  | nil => intro aon aoff h2 m; exact ⟨h2, m⟩
+  | cons n rest ih =>
+    intro aon aoff h2 m
+    rw [List.foldl_cons, List.foldl_cons]
+    obtain ⟨s1, s2⟩ := matchStep_rel n aon aoff h2 m
+    exact ih _ _ s1 s2
+
+theorem matchAll_rel {opts : Opts} {d : Decls} {on off : Defs} (m : MRel opts d on off) (nodes : List AstNode) :
+    (matchAll opts.staticOff d off nodes).2 = (matchAll opts d on nodes).2 ∧
+      MRel opts d (matchAll opts d on nodes).1 (matchAll opts.staticOff d off nodes).1 := by
+  rw [matchAll_eq, matchAll_eq]
+  obtain ⟨s1, s2⟩ := matchFold_rel (opts := opts) (d := d) nodes (on, [], []) (off, [], []) rfl m
+  refine ⟨?_, s2⟩
+  simp only
+  rw [s1]
+
 end Casm
